@@ -216,10 +216,11 @@ class Offsets:
     def __init__(self, text):
         self.text = text
         self.starts = [0]
-        for line in text.splitlines(True):
-            self.starts.append(self.starts[-1] + len(line))
+        lines = text.split("\n")          # the tokenizer's lines (form feeds etc. do not end a line)
+        for line in lines:
+            self.starts.append(self.starts[-1] + len(line) + 1)
         self.ascii = text.isascii()
-        self.lines = None if self.ascii else text.splitlines(True)
+        self.lines = None if self.ascii else lines
 
     def off(self, lineno, col):
         if self.ascii:
@@ -424,6 +425,8 @@ def _tight_needs_space(prev, s):
     a, b = prev[-1], s[0]
     if (a.isalnum() or a in "_'\"") and (b.isalnum() or b in "_'\""):
         return True
+    if a == "." and prev[0].isdigit() and (b.isalnum() or b == "_"):
+        return True          # 1.if would lex as a malformed number
     if a == "." and b == "." and not (prev == "..." or s == "..."):
         return False
     return False
@@ -496,3 +499,75 @@ def render_layout(tokens, gaps, style, indent="    ", cont="      "):
     line_end_deco(len(tokens) + 1)
     emit("\n")
     return "".join(out), spans
+
+
+# ---------------------------------------------------------------- watchdog
+import signal as _signal
+
+
+class Hang(Exception):
+    """The code under test did not return in time."""
+
+
+def _on_alarm(signum, frame):
+    raise Hang()
+
+
+def with_timeout(seconds, fn, *args, **kw):
+    """fn(*args) in the calling (main) thread, raising Hang after `seconds`."""
+    old = _signal.signal(_signal.SIGALRM, _on_alarm)
+    _signal.setitimer(_signal.ITIMER_REAL, seconds)
+    try:
+        return fn(*args, **kw)
+    finally:
+        _signal.setitimer(_signal.ITIMER_REAL, 0)
+        _signal.signal(_signal.SIGALRM, old)
+
+
+# ---------------------------------------------------------------- streaming replay
+def stream_map(fn, producer, chunk=100, nproc=None, maxq=4000):
+    """Like engine.replay.pool_map, for behaviours that arrive while TLC is still
+    running: `producer(put)` is run in a thread and calls put(item) for every
+    item (blocking when the workers lag behind, so memory stays bounded);
+    results are yielded as they come."""
+    import multiprocessing as mp
+    import queue
+    import threading
+    from engine import replay
+
+    q = queue.Queue(maxsize=maxq)
+    done = object()
+    err = []
+
+    def run():
+        try:
+            producer(q.put)
+        except BaseException as e:  # noqa - reported by the consumer
+            err.append(e)
+        finally:
+            q.put(done)
+
+    th = threading.Thread(target=run, daemon=True)
+
+    def chunks():
+        buf = []
+        while True:
+            item = q.get()
+            if item is done:
+                break
+            buf.append(item)
+            if len(buf) >= chunk:
+                yield (fn, buf)
+                buf = []
+        if buf:
+            yield (fn, buf)
+
+    ctx = mp.get_context("fork")
+    with ctx.Pool(nproc or replay.NPROC) as pool:    # fork before the reader thread exists
+        th.start()
+        for res in pool.imap_unordered(replay._run_chunk, chunks()):
+            for r in res:
+                yield r
+    th.join()
+    if err:
+        raise err[0]
